@@ -154,9 +154,14 @@ def run(db, cx):
     cd = [f for n in cds for f in db.get(n)]
     cx.require(cd, "anchor calc_max_depth not found")
     f = cd[0]
-    inc = [b for (b, i, e) in f.events("def") if e.get("var") == "cur_depth" and e.get("op") == "++"]
-    dec = [b for (b, i, e) in f.events("def") if e.get("var") == "cur_depth" and e.get("op") == "--"]
-    cx.require(len(inc) == 1 and len(dec) == 1, "calc_max_depth: expected one ++/-- of cur_depth")
+    ups = {}
+    for (b, i, e) in f.events("def"):
+        if e.get("op") in ("++", "--"):
+            ups.setdefault(e.get("var"), {}).setdefault(e["op"], []).append(b)
+    dv = [v for v, d_ in ups.items() if "++" in d_ and "--" in d_]
+    cx.require(len(dv) == 1 and len(ups[dv[0]]["++"]) == 1 and len(ups[dv[0]]["--"]) == 1,
+               "calc_max_depth: expected one running-depth variable with one ++ and one --")
+    inc, dec = ups[dv[0]]["++"], ups[dv[0]]["--"]
     # loop body entry = successor of the range-for condition that reaches inc
     heads = [bid for bid, blk in f.blocks.items() if blk.get("tk") == "CXXForRangeStmt"]
     cx.require(heads, "calc_max_depth: token loop not found")
@@ -202,7 +207,8 @@ def run(db, cx):
                     emitted.add(a["enum"].split("::")[-1])
                 elif "F:" + C + "orangeinp::Joined::op" in a.get("refs", []):
                     emitted.add("Joined::op")
-                elif local_refs(a.get("refs", [])) == {"sidx"}:
+                elif len(local_refs(a.get("refs", []))) == 1 and not a.get("calls") \
+                        and not [r for r in a.get("refs", []) if r.startswith(("E:", "F:"))]:
                     emitted.add("surface")
                 else:
                     other.append(a.get("t"))
